@@ -743,17 +743,60 @@ def rule_u11(F):
     name is detected when the SECOND STUB meets the first: `insert_declaration(.., update_if)` replaces an existing entry only if
     `update_if` accepts it.  So a declaration that is (or may be) a stub must be inserted with an `update_if` that accepts nothing;
     only a definition may replace a stub.  (If a stub may replace a stub, `enum E { A, A }` passes the stub pass and the definition
-    pass then unwraps an Err: the compiler panics instead of reporting the duplicate.)"""
+    pass then unwraps an Err: the compiler panics instead of reporting the duplicate.)  A method that merely hands its own `kind` and
+    predicate parameters on to insert_declaration is the same interface one level up: its callers are judged instead."""
     r = RuleResult("C06.U11", "a stub declaration never replaces an existing stub: repeated names are reported, not carried into the definition pass", floor=8)
-    for b in F.bodies_in(["src/typechecker/mod.rs", "src/typechecker/scope.rs", "src/typechecker/function.rs"]):
-        if not b.hir or "::tests::" in b.path:
-            continue
+    bodies = [b for b in F.bodies_in(["src/typechecker/mod.rs", "src/typechecker/scope.rs", "src/typechecker/function.rs"]) if b.hir and "::tests::" not in b.path]
+    # interface: method name -> (index of the kind argument, index of the predicate argument) among the call's arguments (self = 0)
+    iface = {"insert_declaration": (2, 4)}
+
+    def lit_false(e):
+        e = hir.strip(e or {})
+        while e.get("k") == "block" and not (e.get("stmts") or []) and e.get("expr") is not None:
+            e = hir.strip(e["expr"])
+        return e.get("k") == "lit" and e.get("v") is False
+
+    def accepts_nothing(ld, cl):
+        cl = hir.strip(cl)
+        if cl.get("k") == "closure":
+            return lit_false(cl.get("body"))
+        cl = follow(ld, cl)
+        if cl.get("k") == "closure":
+            return lit_false(cl.get("body"))
+        if cl.get("k") == "path" and hir.res_local(cl) is None:
+            fb = F.body(hir.res_def(cl) or "")
+            return bool(fb is not None and fb.hir and lit_false(fb.hir.get("value")))
+        return False
+
+    changed = True
+    forwarding = set()        # (body path, call line) of calls that only forward the two parameters
+    while changed:
+        changed = False
+        for b in bodies:
+            if "{closure" in b.path:
+                continue
+            ld = hir.LocalDefs(b.hir)
+            pidx = hir.param_index(b.hir)
+            for c in hir.nodes(b.hir.get("value") or {}, "mcall"):
+                if c["m"] not in iface or len(c["args"]) <= max(iface[c["m"]]):
+                    continue
+                ki, pi = iface[c["m"]]
+                k_, p_ = follow(ld, c["args"][ki]), follow(ld, c["args"][pi])
+                kl = hir.res_local(k_) if k_.get("k") == "path" else None
+                pl = hir.res_local(p_) if p_.get("k") == "path" else None
+                if kl in pidx and pl in pidx:
+                    forwarding.add((b.path, c.get("line")))
+                    name = hir.last(b.path)
+                    if name not in iface:
+                        iface[name] = (pidx[kl], pidx[pl])
+                        changed = True
+    for b in bodies:
         ld = hir.LocalDefs(b.hir)
         for c in hir.nodes(b.hir.get("value") or {}, "mcall"):
-            if c["m"] != "insert_declaration" or len(c["args"]) != 5:
+            if c["m"] not in iface or len(c["args"]) <= max(iface[c["m"]]) or (b.path, c.get("line")) in forwarding:
                 continue
-            kind = follow(ld, c["args"][2])
-            cl = hir.strip(c["args"][4])
+            ki, pi = iface[c["m"]]
+            kind = follow(ld, c["args"][ki])
 
             def payload_state(e, depth=0):
                 """'stub' | 'def' | 'maybe' for the payload of a DeclarationKind constructor"""
@@ -769,11 +812,6 @@ def rule_u11(F):
                         return "maybe"
                     return "def"
                 if k == "call":
-                    d = hir.call_def(e) or ""
-                    if hir.last(d) == "Some":
-                        return "def"
-                    if "TypeOrStub::Type" in d:
-                        return "def"
                     return "def"
                 if k == "struct":
                     d = hir.res_def({"res": e.get("path") or {}}) or ""
@@ -790,14 +828,9 @@ def rule_u11(F):
                         state = "maybe"
             elif kind.get("k") == "path" and hir.res_local(kind) is not None:
                 state = "maybe"
-            accepts_nothing = False
-            if cl.get("k") == "closure":
-                body = hir.strip(cl.get("body") or {})
-                while body.get("k") == "block" and not (body.get("stmts") or []) and body.get("expr") is not None:
-                    body = hir.strip(body["expr"])
-                accepts_nothing = body.get("k") == "lit" and body.get("v") is False
-            r.inst("%s line %s" % (hir.last(b.path.split("::{closure")[0]), c.get("line")), {"fn": b.path, "line": c.get("line"), "declares": state, "replaces_nothing": accepts_nothing})
-            if state in ("stub", "maybe") and not accepts_nothing:
+            nothing = accepts_nothing(ld, c["args"][pi])
+            r.inst("%s line %s" % (hir.last(b.path.split("::{closure")[0]), c.get("line")), {"fn": b.path, "line": c.get("line"), "via": c["m"], "declares": state, "replaces_nothing": nothing})
+            if state in ("stub", "maybe") and not nothing:
                 r.bad(b.path.split("::{closure")[0], "stub inserted with a replacing update_if", relfile(b.file), c.get("line"),
                       "a declaration that %s a stub is inserted with an `update_if` that can accept an existing entry: a repeated name replaces the first stub silently and the duplicate is only "
                       "met by the definition pass, which unwraps the error (`enum Colour { Red, Green, Red }` panics the compiler)" % ("is" if state == "stub" else "may be"))
